@@ -1,5 +1,6 @@
 import VOPyVerif.Proofs.Pareto
 import VOPyVerif.Proofs.ParetoDominates
+import VOPyVerif.Proofs.ParetoInvariance
 /-!
 # C13 — Pareto-set extraction is exact for every finite set and cone
 
@@ -190,6 +191,129 @@ theorem dominates_naive (W : Mat) (m : Nat) (xs : List Vec) (hlen : ∀ x ∈ xs
 /-- non-vacuity of the pointedness hypothesis: the componentwise order on a concrete list -/
 example : ∀ a ∈ ([[1,2],[2,1],[0,0],[2,1]] : List Vec), ∀ b ∈ ([[1,2],[2,1],[0,0],[2,1]] : List Vec),
     dominates (identMat 2) a b = true → dominates (identMat 2) b a = true → a = b := by
+  decide +kernel
+
+end VOPy.C13
+
+/-! # INVARIANCE — the routines depend on differences only
+
+The metamorphic checks of the harness ("translated / rescaled inputs give the identical index list")
+rely on the model having exactly these invariances, for every input.  All statements are equalities
+of the returned **index lists** (what the harness compares), for any cone matrix `W`, any finite list
+(duplicates included); the length hypotheses are the ones under which `vadd` does not truncate. -/
+namespace VOPy.C13
+open VOPy VOPy.Pareto
+
+variable {α β : Type}
+
+/-- **General form.**  If `f` carries the relation used on the members of `xs` to the relation used on
+their images (`dom' (f a) (f b) = dom a b` for `a, b ∈ xs`), the fast routine returns the same index
+list on `xs.map f` (with `dom'`) as on `xs` (with `dom`); likewise the naive routine when `f` also
+preserves its `eqv`.  No order axioms are needed. -/
+theorem pareto_map_congr (eqv dom : α → α → Bool) (eqv' dom' : β → β → Bool) (f : α → β) (xs : List α)
+    (hd : ∀ a ∈ xs, ∀ b ∈ xs, dom' (f a) (f b) = dom a b) :
+    fast dom' (xs.map f) = fast dom xs ∧
+    ((∀ a ∈ xs, ∀ b ∈ xs, eqv' (f a) (f b) = eqv a b) →
+      naive eqv' dom' (xs.map f) = naive eqv dom xs) :=
+  ⟨fast_map_congr dom dom' f xs hd, fun he => naive_map_congr eqv dom eqv' dom' f xs hd he⟩
+
+/-- **Translation invariance (fast routine).**  For any cone matrix `W` and any list of vectors of the
+length of `t`: translating every point by `t` does not change the returned index list. -/
+theorem fast_translate (W : Mat) (t : Vec) (xs : List Vec) (hlen : ∀ x ∈ xs, x.length = t.length) :
+    fast (dominates W) (xs.map (fun x => vadd x t)) = fast (dominates W) xs :=
+  fast_map_congr _ _ _ xs (fun a ha b hb => dominates_translate_eq W a b t (hlen a ha) (hlen b hb))
+
+/-- **Positive scaling invariance (fast routine)**: `c > 0`, no hypothesis on lengths. -/
+theorem fast_scale (W : Mat) (c : Rat) (hc : 0 < c) (xs : List Vec) :
+    fast (dominates W) (xs.map (smul c)) = fast (dominates W) xs :=
+  fast_map_congr _ _ _ xs (fun a _ b _ => dominates_scale_eq W c hc a b)
+
+/-- **Translation / scaling invariance (naive routine).**  With an `eqv` that is itself translation
+(resp. scaling) invariant on the input — in particular exact equality — the naive routine returns the
+same index list.  (`np.allclose`, which the code uses, is *relative* to the values and is not
+translation invariant: see the example below.) -/
+theorem naive_translate (W : Mat) (t : Vec) (xs : List Vec) (hlen : ∀ x ∈ xs, x.length = t.length)
+    (eqv : Vec → Vec → Bool)
+    (he : ∀ a ∈ xs, ∀ b ∈ xs, eqv (vadd a t) (vadd b t) = eqv a b) :
+    naive eqv (dominates W) (xs.map (fun x => vadd x t)) = naive eqv (dominates W) xs :=
+  naive_map_congr eqv _ eqv _ _ xs
+    (fun a ha b hb => dominates_translate_eq W a b t (hlen a ha) (hlen b hb)) he
+
+theorem naive_scale (W : Mat) (c : Rat) (hc : 0 < c) (xs : List Vec) (eqv : Vec → Vec → Bool)
+    (he : ∀ a ∈ xs, ∀ b ∈ xs, eqv (smul c a) (smul c b) = eqv a b) :
+    naive eqv (dominates W) (xs.map (smul c)) = naive eqv (dominates W) xs :=
+  naive_map_congr eqv _ eqv _ _ xs (fun a _ b _ => dominates_scale_eq W c hc a b) he
+
+/-- the naive routine with exact equality as `eqv` is translation and scaling invariant -/
+theorem naive_eq_translate_scale (W : Mat) (t : Vec) (c : Rat) (hc : 0 < c) (xs : List Vec)
+    (hlen : ∀ x ∈ xs, x.length = t.length) :
+    naive (fun a b => decide (a = b)) (dominates W) (xs.map (fun x => vadd x t)) =
+      naive (fun a b => decide (a = b)) (dominates W) xs ∧
+    naive (fun a b => decide (a = b)) (dominates W) (xs.map (smul c)) =
+      naive (fun a b => decide (a = b)) (dominates W) xs := by
+  refine ⟨naive_translate W t xs hlen _ (fun a ha b hb => ?_), naive_scale W c hc xs _ (fun a _ b _ => ?_)⟩
+  · rw [decide_eq_decide]; exact vadd_right_cancel_iff a b t (hlen a ha) (hlen b hb)
+  · rw [decide_eq_decide]; exact smul_left_cancel_iff c (ne_of_gt hc) a b
+
+/-- **Invariance under the presentation of the cone.**  Multiplying the rows of `W` by positive factors
+(`rowScale cs W`, one factor per row) or replacing `W` by any matrix with the same set of rows (a row
+permutation, repeated rows) changes neither routine's index list — for any `eqv`. -/
+theorem pareto_cone_presentation (W : Mat) (xs : List Vec) (eqv : Vec → Vec → Bool) :
+    (∀ cs : Vec, cs.length = W.length → (∀ c ∈ cs, 0 < c) →
+      fast (dominates (rowScale cs W)) xs = fast (dominates W) xs ∧
+      naive eqv (dominates (rowScale cs W)) xs = naive eqv (dominates W) xs) ∧
+    (∀ W' : Mat, (∀ w, w ∈ W' ↔ w ∈ W) →
+      fast (dominates W') xs = fast (dominates W) xs ∧
+      naive eqv (dominates W') xs = naive eqv (dominates W) xs) := by
+  constructor
+  · intro cs hl hp
+    have h : dominates (rowScale cs W) = dominates W := by
+      funext a b; exact dominates_rowScale cs W hl hp a b
+    rw [h]; exact ⟨rfl, rfl⟩
+  · intro W' hW
+    have h : dominates W' = dominates W := by
+      funext a b; exact dominates_of_same_rows W W' hW a b
+    rw [h]; exact ⟨rfl, rfl⟩
+
+/-- row permutations in particular -/
+theorem pareto_rowPerm (W W' : Mat) (h : W'.Perm W) (xs : List Vec) (eqv : Vec → Vec → Bool) :
+    fast (dominates W') xs = fast (dominates W) xs ∧
+    naive eqv (dominates W') xs = naive eqv (dominates W) xs :=
+  (pareto_cone_presentation W xs eqv).2 W' (fun _ => h.mem_iff)
+
+/-! ### non-vacuity: offset `2^20`, gaps `2^-10` -/
+
+/-- six points with gaps of `2^-10`, as they are and translated by `(2^20, −2^20)`: same index list
+`[0, 1, 4]` (a duplicate at positions 1 and 3, kept once by the fast routine) -/
+example :
+    fast (dominates (identMat 2))
+      [[1/1024, 2/1024], [2/1024, 1/1024], [0, 0], [2/1024, 1/1024], [3/1024, 0], [1/1024, 1/1024]] = [0, 1, 4] ∧
+    fast (dominates (identMat 2))
+      ([[1/1024, 2/1024], [2/1024, 1/1024], [0, 0], [2/1024, 1/1024], [3/1024, 0], [1/1024, 1/1024]].map
+        (fun x => vadd x [1048576, -1048576])) = [0, 1, 4] := by
+  decide +kernel
+
+/-- … as an instance of the theorem (non-orthant cone, scaling by `2^20` as well) -/
+example :
+    fast (dominates [[2, -1], [-1, 2]])
+      (([[1/1024, 2/1024], [2/1024, 1/1024], [0, 0]] : List Vec).map (fun x => vadd x [1048576, -1048576])) =
+    fast (dominates [[2, -1], [-1, 2]]) [[1/1024, 2/1024], [2/1024, 1/1024], [0, 0]] ∧
+    fast (dominates [[2, -1], [-1, 2]])
+      (([[1/1024, 2/1024], [2/1024, 1/1024], [0, 0]] : List Vec).map (smul 1048576)) =
+    fast (dominates [[2, -1], [-1, 2]]) [[1/1024, 2/1024], [2/1024, 1/1024], [0, 0]] :=
+  ⟨fast_translate _ _ _ (by decide), fast_scale _ _ (by norm_num) _⟩
+
+/-- **`np.allclose` is not translation invariant** (the `eqv` hypothesis of `naive_translate` cannot be
+dropped): with `eqv a b := |a − b| ≤ 1e-8 + 1e-5·|b|` entrywise, the points `(0,0)` and `(2^-10, 2^-10)`
+are different values and the dominated one is dropped, but after translation by `2^20` they are
+"close", so the naive routine keeps both. -/
+example :
+    let eqv : Vec → Vec → Bool := fun a b =>
+      (List.zipWith (fun x y => decide ((if x - y < 0 then y - x else x - y) ≤
+        (1 : Rat) / 100000000 + (1 : Rat) / 100000 * (if y < 0 then -y else y))) a b).all id
+    naive eqv (dominates (identMat 2)) [[0, 0], [1/1024, 1/1024]] = [1] ∧
+    naive eqv (dominates (identMat 2))
+      ([[0, 0], [1/1024, 1/1024]].map (fun x => vadd x [1048576, 1048576])) = [0, 1] := by
   decide +kernel
 
 end VOPy.C13
